@@ -323,7 +323,7 @@ def check_iterators(run, cx, cfg):
         key = 'dasp_signal::IntoInterleavedSamples'
         si, ci = cx.field_index(key, 'signal'), cx.field_index(key, 'current_frame')
         cur = self_field(ci)
-        paths = returning(cx.paths(fn, stop_trait_methods=STOP, stop=[fn]))
+        paths = returning(cx.paths(fn, stop_trait_methods=STOP, stop=[fn], transparent=('core::option::Option::<T>::map',)))
         bad = None
         kinds = set()
         for p in paths:
@@ -363,6 +363,16 @@ def check_iterators(run, cx, cfg):
                 k, e = rec[0]
                 if len(chan_next) != 1 or option_variant(facts_, ('ret', chan_next[0][0])) != 0 or p['ret'] != ('ret', k):
                     bad = bad or 'recurses without the channel iterator having finished: [%s]' % describe_path(p)
+                # the slot must have been cleared when the recursive call is made: otherwise the call finds the finished
+                # channel iterator again and recurses forever
+                pre = (e.get('pre') or {}).get(0)
+                cleared = False
+                if pre is not None and pre[0] == 'upd':
+                    for rel, val in pre[2]:
+                        if rel == (('f', ci),) and val[0] == 'agg' and val[1][1] == 'core::option::Option' and val[1][2] == 0:
+                            cleared = True
+                if not cleared:
+                    bad = bad or 'recurses with the finished frame still in the slot (the slot must be set to None first): [%s]' % describe_path(p)
                 kinds.add('frame-finished')
             elif not isnone:
                 same_option = len(chan_next) == 1 and p['ret'] == ('ret', chan_next[0][0]) and option_variant(facts_, p['ret']) == 1     # handed on as it is, known to be Some
